@@ -259,6 +259,52 @@ func extra() {
 		})
 	}
 	emitStr("crdBailCondition", crdCond)
+	// flag forwarding between actions: what `helm upgrade --install` hands to the install it falls back to, what a
+	// failed atomic install hands to its uninstall, and what a failed atomic upgrade hands to its rollback
+	fields := func(file, recv, fn, target string) [][2]string {
+		var out [][2]string
+		var root ast.Node = parse(file)
+		if fn != "" {
+			fd := funcDecl(parse(file), recv, fn)
+			if fd == nil || fd.Body == nil {
+				problem("%s: function %s not found", file, fn)
+				return nil
+			}
+			root = fd.Body
+		}
+		ast.Inspect(root, func(n ast.Node) bool {
+			as, ok := n.(*ast.AssignStmt)
+			if !ok || len(as.Lhs) != 1 || len(as.Rhs) != 1 {
+				return true
+			}
+			sel, ok := as.Lhs[0].(*ast.SelectorExpr)
+			if !ok {
+				return true
+			}
+			if id, ok := sel.X.(*ast.Ident); ok && id.Name == target {
+				out = append(out, [2]string{sel.Sel.Name, exprText(as.Rhs[0])})
+			}
+			return true
+		})
+		return out
+	}
+	emitPairs("upgradeInstallForwards", fields("pkg/cmd/upgrade.go", "", "", "instClient"))
+	emitPairs("atomicUninstallFields", fields("pkg/action/install.go", "Install", "failRelease", "uninstall"))
+	emitPairs("atomicRollbackFields", fields("pkg/action/upgrade.go", "Upgrade", "failRelease", "rollin"))
+	// release/v1/status.go: the statuses IsPending counts as an operation in flight (the pessimistic lock of upgrade)
+	var pend []string
+	if fd := funcDecl(parse("pkg/release/v1/status.go"), "Status", "IsPending"); fd != nil && fd.Body != nil {
+		ast.Inspect(fd.Body, func(n ast.Node) bool {
+			if be, ok := n.(*ast.BinaryExpr); ok && be.Op.String() == "==" {
+				pend = append(pend, exprText(be.Y))
+			}
+			return true
+		})
+	} else {
+		problem("Status.IsPending not found")
+	}
+	sort.Strings(pend)
+	emitList("pendingStatuses", pend)
 	emitSkeletons()
 	// order in which Options.MergeValues applies the value-flag families
 	emitList("valueFlagOrder", rangeOrder(funcDecl(parse("pkg/cli/values/options.go"), "Options", "MergeValues")))
